@@ -66,7 +66,30 @@ def recordformat(ctx, quick):
     return flags
 
 
-ITEMS = [("pipeline", pipeline), ("daemon", daemon), ("cache", cache), ("recordformat", recordformat)]
+def asyncapi(ctx, quick):
+    """GetStatusAsync(requireACK) and Receive in the client model (profile ASYNC): request shape, frames
+    handed out one at a time in order and unchanged; every bounded behaviour replayed on the real client."""
+    from . import fam_client
+    res = ctx.tlc("client", "MC_Client", fam_client.mc_cfg("ASYNC", 4 if quick else 5, True), workers=core.NCPU, timeout=3000, heap="16g")
+    sp = ctx.path("async", "scripts.ndjson")
+    n = 0
+    with open(sp, "w") as fh:
+        for hist in res.behaviours():
+            n += 1
+            ops = [{"name": r["name"], "mode": r["mode"], "value": r["value"], "arg": r["arg"], "plan": r["plan"]} for r in hist]
+            fh.write(json.dumps({"trace": n, "ops": ops, "pred": hist}) + "\n")
+    tp = ctx.path("async", "trace.ndjson")
+    summ = ctx.driver_json(["client-run", "--in", sp, "--out", tp, "--all", "--par", 256], timeout=3000)
+    flags, nrec = core.judge_traces(ctx, "client", "ClientTrace", TRACE_CFG, tp, xss="64m")
+    ctx.log("async client API: %d model states, %d behaviours replayed (%d equal to the prediction), %d records judged, %d flags"
+            % (res.distinct, n, summ["stats"].get("equal_to_prediction", 0), nrec, len(flags)))
+    if summ["stats"].get("differs_from_prediction"):
+        print("MODEL-DRIFT item=asyncapi %d behaviours differ from the model (first: %s)"
+              % (summ["stats"]["differs_from_prediction"], summ["mismatch_traces"][:5]))
+    return flags
+
+
+ITEMS = [("asyncapi", asyncapi), ("pipeline", pipeline), ("daemon", daemon), ("cache", cache), ("recordformat", recordformat)]
 
 
 def run(tier, seed, only=None):
